@@ -1041,4 +1041,377 @@ theorem step_nodupKeys (r : Reg) (op : ROp) (h : nodupKeys r) : nodupKeys (step 
     · exact nodupKeys_writeAll _ _ _ h
     · exact h
 
+/-! ### frame: an operation leaves alone every type it does not mention -/
+
+/-- The types an operation names. -/
+def ROp.keys : ROp → List Key
+  | .ins k _ | .rem k | .take k | .hasTop k | .has k | .find k | .findMut k | .get k | .tryGet k | .set k _
+  | .getMut k _ | .entOrIns k _ | .entOrWith k _ | .entOrDef k | .entMod k _ | .entModV k _ | .entModOrIns k _ _
+  | .occGet k | .occGetMut k _ | .occIntoMut k _ | .occIns k _ | .occRem k | .vacIns k _ | .parGet _ k
+  | .parIns _ k _ | .req k => [k]
+  | .multi ks _ => ks
+  | .push | .pop | .dump => []
+
+/-- Not a raw scope push/pop (inside closure bodies scopes come from `with_inner_state`). -/
+def ROp.flat : ROp → Bool
+  | .push | .pop => false
+  | _ => true
+
+/-- The bindings of type `q`, scope by scope. -/
+def col (sp : Spec) (q : Key) : List (Option Nat) := sp.map (fun m => m q)
+
+theorem col_updFirst (sp : Spec) (k q : Key) (v : Option Nat) (h : k ≠ q) : col (sp.updFirst k v) q = col sp q := by
+  induction sp with
+  | nil => rfl
+  | cons m p ih =>
+    simp only [Spec.updFirst]
+    split
+    · simp [col, PMap.set, Ne.symm h]
+    · simp only [col, List.map_cons] at ih ⊢; rw [ih]
+
+theorem col_setTop (sp : Spec) (k q : Key) (v : Option Nat) (h : k ≠ q) (hne : sp ≠ []) :
+    col (sp.setTop k v) q = col sp q := by
+  cases sp with
+  | nil => exact absurd rfl hne
+  | cons m p => simp [Spec.setTop, col, PMap.set, Ne.symm h]
+
+theorem col_modifyAt_set (sp : Spec) (i : Nat) (k q : Key) (v : Option Nat) (h : k ≠ q) :
+    col (modifyAt sp i (fun m : PMap => m.set k v)) q = col sp q := by
+  induction sp generalizing i with
+  | nil => rfl
+  | cons m p ih =>
+    cases i with
+    | zero => simp [modifyAt, col, PMap.set, Ne.symm h]
+    | succ i => simp only [modifyAt, col, List.map_cons] at ih ⊢; rw [ih]
+
+theorem col_addAll (ks : List Key) (sp : Spec) (q : Key) (d : Nat) (h : q ∉ ks) : col (sp.addAll ks d) q = col sp q := by
+  induction ks generalizing sp with
+  | nil => rfl
+  | cons k ks ih =>
+    simp only [List.mem_cons, not_or] at h
+    simp only [Spec.addAll, List.foldl_cons]
+    have := ih (sp.updFirst k ((sp.lookup k).map (· + d))) h.2
+    simp only [Spec.addAll] at this
+    rw [this, col_updFirst _ _ _ _ (Ne.symm h.1)]
+
+theorem col_orInsert (sp : Spec) (k q : Key) (v : Nat) (h : k ≠ q) (hne : sp ≠ []) :
+    col (sp.orInsert k v).1 q = col sp q := by
+  simp only [Spec.orInsert]; split
+  · rfl
+  · exact col_setTop sp k q _ h hne
+
+theorem col_length (sp : Spec) (q : Key) : (col sp q).length = sp.length := by simp [col]
+
+theorem specStep_frame (sp : Spec) (o : ROp) (q : Key) (hq : q ∉ ROp.keys o) (hflat : ROp.flat o = true)
+    (hne : sp ≠ []) : col (specStep sp o).1 q = col sp q := by
+  have hmod : ∀ k d, k ≠ q → col (sp.modify k d) q = col sp q := fun k d hk => col_updFirst sp k q _ hk
+  have hmodne : ∀ k d, sp.modify k d ≠ [] := by
+    intro k d h
+    have := congrArg List.length (congrArg (col · q) h)
+    simp only [col_length] at this
+    have h2 : (sp.modify k d).length = sp.length := by
+      by_cases hk : k = q
+      · have := congrArg List.length h; simp at this
+        cases sp with
+        | nil => exact absurd rfl hne
+        | cons m p =>
+          simp only [Spec.modify, Spec.updFirst] at h; split at h <;> cases h
+      · have := col_updFirst sp k q ((sp.lookup k).map (· + d)) hk
+        have := congrArg List.length this
+        simpa [col_length, Spec.modify] using this
+    rw [h2] at this
+    cases sp with
+    | nil => exact absurd rfl hne
+    | cons m p => simp at this
+  cases o <;> simp only [ROp.keys, List.mem_singleton, List.not_mem_nil, not_false_eq_true] at hq <;>
+    simp only [ROp.flat] at hflat <;> simp only [specStep]
+  case ins k v => exact col_setTop sp k q _ (Ne.symm hq) hne
+  case rem k => split <;> first | rfl | exact col_updFirst sp k q _ (Ne.symm hq)
+  case take k => split <;> first | rfl | exact col_updFirst sp k q _ (Ne.symm hq)
+  case set k v => split <;> first | rfl | exact col_updFirst sp k q _ (Ne.symm hq)
+  case getMut k v => split <;> first | rfl | exact col_updFirst sp k q _ (Ne.symm hq)
+  case entOrIns k v => exact col_orInsert sp k q v (Ne.symm hq) hne
+  case entOrWith k v => exact col_orInsert sp k q v (Ne.symm hq) hne
+  case entOrDef k => exact col_orInsert sp k q 0 (Ne.symm hq) hne
+  case entMod k d => exact hmod k d (Ne.symm hq)
+  case entModV k d => exact hmod k d (Ne.symm hq)
+  case entModOrIns k d v =>
+    rw [col_orInsert _ k q v (Ne.symm hq) (hmodne k d)]; exact hmod k d (Ne.symm hq)
+  case occGetMut k v => split <;> first | rfl | exact col_updFirst sp k q _ (Ne.symm hq)
+  case occIntoMut k v => split <;> first | rfl | exact col_updFirst sp k q _ (Ne.symm hq)
+  case occIns k v => split <;> first | rfl | exact col_updFirst sp k q _ (Ne.symm hq)
+  case occRem k => split <;> first | rfl | exact col_updFirst sp k q _ (Ne.symm hq)
+  case vacIns k v => split <;> first | rfl | exact col_setTop sp k q _ (Ne.symm hq) hne
+  case parGet d k => split <;> rfl
+  case parIns d k v =>
+    split
+    · rename_i hd
+      have hdn : sp.drop d ≠ [] := by
+        intro h'; have := congrArg List.length h'; simp at this; omega
+      have := col_setTop (sp.drop d) k q (some v) (Ne.symm hq) hdn
+      simp only [col, List.map_append, List.map_take, List.map_drop] at this ⊢
+      rw [this, List.take_append_drop]
+    · rfl
+  case multi ks d =>
+    split
+    · split
+      · exact col_addAll ks sp q d hq
+      · rfl
+    · rfl
+  case push => cases hflat
+  case pop => cases hflat
+  all_goals rfl
+
+/-- The bindings of type `q` in the model registry, scope by scope. -/
+def vcol (r : Reg) (q : Key) : List (Option Nat) := col (abs r) q
+
+theorem abs_ne_nil (r : Reg) (h : r ≠ []) : abs r ≠ [] := by
+  cases r with
+  | nil => exact absurd rfl h
+  | cons s p => simp [abs_cons]
+
+theorem step_frame (r : Reg) (o : ROp) (q : Key) (hI : Inv r) (hq : q ∉ ROp.keys o) (hflat : ROp.flat o = true) :
+    vcol (step r o).1 q = vcol r q := by
+  simp only [vcol, (step_refines r o hI).2.2]
+  exact specStep_frame (abs r) o q hq hflat (abs_ne_nil r hI.1)
+
+theorem vcol_put_at (r : Reg) (i : Nat) (k q : Key) (c : Cell) (h : k ≠ q) :
+    vcol (modifyAt r i (·.put k c)) q = vcol r q := by
+  simp only [vcol]
+  rw [show abs (modifyAt r i (·.put k c)) = modifyAt (abs r) i (fun m : PMap => m.set k (some c.val)) from
+    map_modifyAt r i _ _ Scope.view [] (Scope.view_put _ k c)]
+  exact col_modifyAt_set _ i k q _ h
+
+theorem vcol_erase_at (r : Reg) (i : Nat) (k q : Key) (h : k ≠ q) :
+    vcol (modifyAt r i (·.erase k)) q = vcol r q := by
+  simp only [vcol]
+  rw [show abs (modifyAt r i (·.erase k)) = modifyAt (abs r) i (fun m : PMap => m.set k none) from
+    map_modifyAt r i _ _ Scope.view [] (Scope.view_erase _ k)]
+  exact col_modifyAt_set _ i k q _ h
+
+theorem vcol_length (r : Reg) (q : Key) : (vcol r q).length = r.length := by simp [vcol, col]
+
+theorem vcol_cons (s : Scope) (p : Reg) (q : Key) : vcol (s :: p) q = s.view q :: vcol p q := rfl
+
+
+/-! ### removal re-exposes; blocks between push and pop -/
+
+theorem find_after_erase (r : Reg) (k : Key) (i : Nat) (hf : find r k = some i) :
+    find (modifyAt r i (·.erase k)) k = (find (r.drop (i + 1)) k).map (· + (i + 1)) := by
+  induction r generalizing i with
+  | nil => simp at hf
+  | cons s p ih =>
+    rw [find_cons] at hf
+    split at hf
+    · cases hf
+      have : (s.erase k).has k = false := by simp [Scope.has, Scope.get?_erase]
+      simp [modifyAt, find_cons, this]
+    · rename_i hs
+      cases h' : find p k with
+      | none => simp [h'] at hf
+      | some j =>
+        simp [h'] at hf; subst hf
+        simp only [modifyAt, find_cons, hs, Bool.false_eq_true, if_false, ih j h', List.drop_succ_cons,
+          Option.map_map]
+        congr 1
+
+theorem lookup_after_erase (sp : Spec) (k : Key) (i : Nat) (h : sp.depthOf k = some i) :
+    (sp.updFirst k none).lookup k = Spec.lookup (sp.drop (i + 1)) k := by
+  induction sp generalizing i with
+  | nil => simp [Spec.depthOf] at h
+  | cons m p ih =>
+    simp only [Spec.depthOf] at h
+    simp only [Spec.updFirst]
+    split at h
+    · rename_i hm; cases h
+      simp [hm, Spec.lookup, PMap.set]
+    · rename_i hm
+      cases h' : Spec.depthOf p k with
+      | none => simp [h'] at h
+      | some j =>
+        simp [h'] at h; subst h
+        have hm' : m k = none := by simpa using hm
+        simp [Spec.lookup, hm', ih j h']
+
+
+/-- Not a scope push/pop and not a write into a parent through `parent_mut()`. -/
+def ROp.isLocal : ROp → Bool
+  | .parIns d _ _ => d == 0
+  | .push | .pop => false
+  | _ => true
+
+theorem ROp.flat_of_isLocal (o : ROp) (h : o.isLocal = true) : o.flat = true := by
+  cases o <;> simp_all [ROp.isLocal, ROp.flat]
+
+/-- Whenever an operation of the block names `q`, it is a plain `insert` (which only ever writes the current
+scope) or the current (innermost) scope binds `q` at that moment. -/
+def shadowedThroughout (q : Key) : Reg → List ROp → Prop
+  | _, [] => True
+  | r, o :: os =>
+    (q ∈ o.keys → containsAtTop r q = true ∨ ∃ v, o = .ins q v) ∧ shadowedThroughout q (step r o).1 os
+
+theorem updFirst_top (m : PMap) (p : Spec) (k : Key) (v : Option Nat) (h : (m k).isSome = true) :
+    Spec.updFirst (m :: p) k v = m.set k v :: p := by simp [Spec.updFirst, h]
+
+theorem lookup_top (m : PMap) (p : Spec) (k : Key) (x : Nat) (h : m k = some x) :
+    Spec.lookup (m :: p) k = some x := by simp [Spec.lookup, h]
+
+theorem col_tail_addAll (ks : List Key) (d : Nat) (q : Key) (m : PMap) (p : Spec) (hm : (m q).isSome = true) :
+    ∃ m' p', Spec.addAll (m :: p) ks d = m' :: p' ∧ (m' q).isSome = true ∧ col p' q = col p q := by
+  induction ks generalizing m p with
+  | nil => exact ⟨m, p, rfl, hm, rfl⟩
+  | cons k ks ih =>
+    simp only [Spec.addAll, List.foldl_cons]
+    by_cases hk : k = q
+    · subst hk
+      obtain ⟨x, hx⟩ := Option.isSome_iff_exists.mp hm
+      rw [updFirst_top m p k _ hm, lookup_top m p k x hx]
+      have := ih (m.set k (some (x + d))) p (by simp [PMap.set])
+      simpa [Spec.addAll] using this
+    · have hc := col_updFirst (m :: p) k q ((Spec.lookup (m :: p) k).map (· + d)) hk
+      simp only [Spec.updFirst] at hc ⊢
+      split
+      · have := ih (m.set k ((Spec.lookup (m :: p) k).map (· + d))) p (by simp [PMap.set, Ne.symm hk, hm])
+        simpa [Spec.addAll] using this
+      · rename_i hmk
+        simp only [hmk, Bool.false_eq_true, if_false, col, List.map_cons, List.cons.injEq, true_and] at hc
+        obtain ⟨m', p', h1, h2, h3⟩ := ih m (Spec.updFirst p k ((Spec.lookup (m :: p) k).map (· + d))) hm
+        refine ⟨m', p', by simpa [Spec.addAll] using h1, h2, ?_⟩
+        rw [h3]; exact hc
+
+/-- An operation that names `q` while the top scope binds `q` changes no outer scope's binding of `q`. -/
+theorem specStep_tail_frame (m : PMap) (p : Spec) (o : ROp) (q : Key) (hl : o.isLocal = true)
+    (hq : q ∈ o.keys → (m q).isSome = true ∨ ∃ v, o = .ins q v) :
+    (col (specStep (m :: p) o).1 q).tail = col p q := by
+  by_cases hins : ∃ k v, o = .ins k v
+  · obtain ⟨k, v, rfl⟩ := hins
+    simp [specStep, Spec.setTop, col]
+  by_cases hmem : q ∈ o.keys
+  · have hm : (m q).isSome = true := by
+      rcases hq hmem with h | ⟨v, hv⟩
+      · exact h
+      · exact absurd ⟨q, v, hv⟩ hins
+    obtain ⟨x, hx⟩ := Option.isSome_iff_exists.mp hm
+    have hl0 := lookup_top m p q x hx
+    have hu := fun v => updFirst_top m p q v hm
+    cases o <;> simp only [ROp.keys, List.mem_singleton, List.not_mem_nil] at hmem <;>
+      (try subst hmem) <;> simp only [ROp.isLocal] at hl
+    case multi ks d =>
+      simp only [specStep]
+      split
+      · split
+        · obtain ⟨m', p', h1, _, h3⟩ := col_tail_addAll ks d q m p hm
+          rw [h1]; simpa [col] using h3
+        · simp [col]
+      · simp [col]
+    case parIns d v =>
+      have : d = 0 := by simpa using hl
+      subst this
+      simp [specStep, Spec.setTop, col]
+    case parGet d => simp only [specStep]; split <;> simp [col]
+    all_goals
+      simp only [specStep, hl0, hu, Spec.setTop, Spec.orInsert, Spec.modify, Spec.top, hx]
+      try simp [col, Spec.lookup, PMap.set]
+  · have := specStep_frame (m :: p) o q hmem (ROp.flat_of_isLocal o hl) (by simp)
+    rw [this]; simp [col]
+
+theorem step_tail_frame (s : Scope) (p : Reg) (o : ROp) (q : Key) (h : Inv (s :: p)) (hl : o.isLocal = true)
+    (hq : q ∈ o.keys → containsAtTop (s :: p) q = true ∨ ∃ v, o = .ins q v) :
+    (vcol (step (s :: p) o).1 q).tail = vcol p q := by
+  simp only [vcol, (step_refines (s :: p) o h).2.2, abs_cons]
+  apply specStep_tail_frame s.view (abs p) o q hl
+  intro hm
+  rcases hq hm with h1 | h1
+  · left; simpa [containsAtTop, scopeAt_zero, Scope.has_eq] using h1
+  · exact Or.inr h1
+
+theorem run_tail_frame (ops : List ROp) (q : Key) (s : Scope) (p : Reg) (h : Inv (s :: p))
+    (hl : ∀ o ∈ ops, o.isLocal = true) (hsh : shadowedThroughout q (s :: p) ops) :
+    (vcol (run (s :: p) ops).1 q).tail = vcol p q := by
+  induction ops generalizing s p with
+  | nil => simp [run, vcol_cons]
+  | cons o os ih =>
+    simp only [shadowedThroughout] at hsh
+    have h1 := (step_refines (s :: p) o h).1
+    have ht := step_tail_frame s p o q h (hl o (by simp)) hsh.1
+    simp only [run]
+    generalize (step (s :: p) o).1 = X at *
+    cases X with
+    | nil => exact absurd rfl h1.1
+    | cons s' p' =>
+      simp only [vcol_cons, List.tail_cons] at ht
+      rw [← ht]
+      exact ih s' p' h1 (fun o' ho' => hl o' (by simp [ho'])) hsh.2
+
+theorem updFirst_length (sp : Spec) (k : Key) (v : Option Nat) : (sp.updFirst k v).length = sp.length := by
+  induction sp with
+  | nil => rfl
+  | cons m p ih => simp only [Spec.updFirst]; split <;> simp [ih]
+
+theorem setTop_length (sp : Spec) (k : Key) (v : Option Nat) (h : sp ≠ []) : (sp.setTop k v).length = sp.length := by
+  cases sp with
+  | nil => exact absurd rfl h
+  | cons m p => rfl
+
+theorem addAll_length (ks : List Key) (sp : Spec) (d : Nat) : (sp.addAll ks d).length = sp.length := by
+  induction ks generalizing sp with
+  | nil => rfl
+  | cons k ks ih =>
+    simp only [Spec.addAll, List.foldl_cons]
+    have := ih (sp.updFirst k ((sp.lookup k).map (· + d)))
+    simp only [Spec.addAll] at this
+    rw [this, updFirst_length]
+
+theorem specStep_length (sp : Spec) (o : ROp) (hflat : o.flat = true) (hne : sp ≠ []) :
+    (specStep sp o).1.length = sp.length := by
+  cases o <;> simp only [ROp.flat] at hflat <;> simp only [specStep, Spec.orInsert, Spec.modify]
+  case ins k v => exact setTop_length sp k _ hne
+  case parIns d k v =>
+    split
+    · rename_i hd
+      have hdn : sp.drop d ≠ [] := by
+        intro h'; have := congrArg List.length h'; simp at this; omega
+      simp [setTop_length _ k _ hdn]; omega
+    · rfl
+  case multi ks d => split <;> (try split) <;> simp [addAll_length]
+  case entModOrIns k d v =>
+    split
+    · simp [updFirst_length]
+    · rw [setTop_length _ k _ (by
+        intro h'; have := congrArg List.length h'; simp [updFirst_length] at this; exact hne this)]
+      simp [updFirst_length]
+  all_goals first
+    | exact absurd hflat (by decide)
+    | rfl
+    | (split <;> simp [updFirst_length, setTop_length sp _ _ hne])
+    | simp [updFirst_length]
+
+theorem step_length (r : Reg) (o : ROp) (h : Inv r) (hflat : o.flat = true) : (step r o).1.length = r.length := by
+  have := specStep_length (abs r) o hflat (abs_ne_nil r h.1)
+  rw [← (step_refines r o h).2.2] at this
+  simpa using this
+
+theorem run_length (r : Reg) (ops : List ROp) (h : Inv r) (hflat : ∀ o ∈ ops, o.flat = true) :
+    (run r ops).1.length = r.length := by
+  induction ops generalizing r with
+  | nil => rfl
+  | cons o os ih =>
+    simp only [run]
+    rw [ih _ (step_refines r o h).1 (fun o' ho' => hflat o' (by simp [ho'])), step_length r o h (hflat o (by simp))]
+
+theorem run_frame (r : Reg) (ops : List ROp) (q : Key) (h : Inv r) (hflat : ∀ o ∈ ops, o.flat = true)
+    (hq : ∀ o ∈ ops, q ∉ o.keys) : vcol (run r ops).1 q = vcol r q := by
+  induction ops generalizing r with
+  | nil => rfl
+  | cons o os ih =>
+    simp only [run]
+    rw [ih _ (step_refines r o h).1 (fun o' ho' => hflat o' (by simp [ho'])) (fun o' ho' => hq o' (by simp [ho'])),
+      step_frame r o q h (hq o (by simp)) (hflat o (by simp))]
+
+theorem run_inv (r : Reg) (ops : List ROp) (h : Inv r) : Inv (run r ops).1 := by
+  induction ops generalizing r with
+  | nil => exact h
+  | cons o os ih => simp only [run]; exact ih _ (step_refines r o h).1
+
+
 end MahfModel.Registry
